@@ -211,7 +211,7 @@ def main():
     uo = vf.run_impl(impl, "C01", upd)
     c.count(len(upd), "partial updates")
     if model:
-        keep = [i for i, (fname, uid, f, img) in enumerate(meta) if not (fname == "Money" and uid == MAXU)]   # the money guard at the last slot belongs to C20
+        keep = list(range(len(meta)))   # includes the money update at the last slot (accepted since fix fcc0c19, C20)
         vf.correspond(c, "partial update entry points vs write_at", [upd[i] for i in keep], [uo[i] for i in keep], vf.run_model(model, [upd[i] for i in keep]))
     for (fname, uid, f, img), l, o in zip(meta, upd, uo):
         off, ln = REF[fname]
@@ -322,7 +322,6 @@ def main():
                   "partial updates: first/second/last/random/invalid uids x {PasswdHash, Email, Money} on PRNG-filled 25600-byte and short files; level-2: absent/short/exact/oversize files x random permission bits; "
                   "a case is non-trivial if it is a distinct (build, type) layout, a distinct record value, or a distinct accepted update",
              assumptions=["encoding/binary, reflect and the gc layout (unsafe.Sizeof/Offsetof) are observed through the compiled driver, not verified",
-                          "the money update is correspondence-checked for uid < MAX_USERS only (the guard at the last slot is C20's finding); there the direct predicate accepts 'refused, file unchanged' or the exact field write",
                           "the docker build is used for layout only (MAX_USERS = 2 000 000 makes .PASSWDS 1 GB); dynamic cases run on the default build",
                           "coq/Model/C01_Frozen.v was transcribed from DESIGN.md Appendix C (pttbbs pttstruct.h), no C header is available offline"])
 
